@@ -50,6 +50,14 @@ type Async struct {
 	Timeout        time.Duration
 }
 
+// clone returns settings nobody else refers to yet (no routine is working for them)
+func (a *Async) clone() *Async {
+	if a == nil {
+		return nil
+	}
+	return &Async{Enable: a.Enable, Threshold: a.Threshold, Timeout: a.Timeout}
+}
+
 func (a *Async) MarshalJSON() ([]byte, error) {
 	t := jsonAsync{
 		a.Enable,
